@@ -218,3 +218,28 @@ fn bounded_twoway_rev_n3_h6() {
     let f = crate::arch::all::twoway::FinderRev::new(n);
     assert!(f.rfind(h, n) == naive_rfind(h, n));
 }
+
+// long needles: the scan must stop at offset 254 (pair offsets are u8); needle = 252 fixed bytes + 8 symbolic ones,
+// symbolic length 250..=260, fully symbolic ranker
+#[kani::proof]
+#[kani::unwind(262)]
+fn bounded_pair_with_ranker_long_tail() {
+    let mut nb = [b'a'; 260];
+    let t: [u8; 8] = kani::any();
+    let mut j = 0;
+    while j < 8 {
+        nb[252 + j] = t[j];
+        j += 1;
+    }
+    let nl: usize = kani::any();
+    kani::assume(250 <= nl && nl <= 260);
+    let ranker = SymRanker(kani::any());
+    match crate::arch::all::packedpair::Pair::with_ranker(&nb[..nl], ranker) {
+        None => assert!(false),
+        Some(p) => {
+            assert!(p.index1() != p.index2());
+            assert!((p.index1() as usize) < nl && (p.index2() as usize) < nl);
+            assert!(p.index1() <= 254 && p.index2() <= 254);
+        }
+    }
+}
